@@ -67,8 +67,8 @@ def gen_grid(rng, S):
         ys = [Fr(i) for i in range(ny)] if defy else gen.axis_q(rng, ny)
         flat = gen.vals_q(rng, gen.shape_size(shape))
     else:
-        xs = [float(i) for i in range(nx)] if defx else gen.axis_f(rng, nx, rng.choice(["uniform", "geometric", "random", "ulps", "evenish", "even"]))
-        ys = [float(i) for i in range(ny)] if defy else gen.axis_f(rng, ny, rng.choice(["uniform", "geometric", "random", "log", "evenish"]))
+        xs = [float(i) for i in range(nx)] if defx else gen.axis_f(rng, nx, rng.choice(["uniform", "geometric", "random", "ulps", "evenish", "even", "indexlike"]))
+        ys = [float(i) for i in range(ny)] if defy else gen.axis_f(rng, ny, rng.choice(["uniform", "geometric", "random", "log", "evenish", "indexlike"]))
         flat = [rng.uniform(-1, 1) * 10.0 ** rng.randint(-3, 5) for _ in range(gen.shape_size(shape))]
         if not defx and not defy and rng.random() < 0.2:
             # data and both axes in extreme units of the same direction (seed C04-r5m1: a rise multiplied by the offset before the
